@@ -29,7 +29,3 @@ def register(add):
               bound_note='loops bounded by the bit length of the precision of configuration w8 (80 bits), unwound completely')
     add('bn_rec_win@w8', ['C08', 'C09'], 'bn_rec_win', sources=[REC], decls='bn_st *k; uint8_t *win; size_t *len; size_t w;',
         call='bn_rec_win(win, len, k, w)', replace=['bn_bits'], **w8)
-    add('bn_rec_naf@w8', ['C09', 'C08'], 'bn_rec_naf', sources=[REC, 'src/bn/relic_bn_mem.c', UTIL], defines=['VC_NAF_MAXBITS=16'],
-        decls='bn_st *k; int8_t *naf; size_t *len; size_t w;', call='bn_rec_naf(naf, len, k, w)',
-        replace=['bn_bits', 'bn_abs', 'bn_is_zero', 'bn_is_even', 'bn_add_dig', 'bn_sub_dig', 'bn_hlv'],
-        **dict(w8, route='bounded', unwind=20, timeout=900, flags=['--object-bits', '11'], bound_note='scalars up to 16 bits, windows 2..8; recoding loop unwound completely'))
